@@ -404,10 +404,111 @@ def run_agg(agg, k1, holder, operand_holder):
     return "ok", None
 
 
+def _agg_of(x, a, agg):
+    flat = a.flatten()
+    if agg == "sum":
+        return x.arr_sum(), np.sum(a)
+    if agg == "prod":
+        return x.arr_prod(), np.prod(a)
+    if agg == "mean":
+        return x.arr_mean(), np.mean(a)
+    if agg == "median":
+        return x.arr_median(), np.median(a)
+    if agg == "stddev":
+        return x.arr_stddev(), np.std(a)
+    k = {"rank1": 1, "rank2": 2}[agg]
+    if k > len(flat):
+        return None, None
+    return x.arr_rank(k), np.sort(flat)[::-1][k - 1]
+
+
+def run_aggop(agg, op, k1, left):
+    """an aggregate of an array as the scalar operand of an element-wise equation over that array: x op agg(x) (left) or agg(x) op x"""
+    from BPTK_Py import Model
+    m = Model(starttime=0, stoptime=3, dt=1, name="arr")
+    a = np.array(values(k1, PRIMES), dtype=float)
+    try:
+        x = make_operand(m, "x", k1, PRIMES)
+        g, w = _agg_of(x, a, agg)
+        if g is None:
+            return "na", None
+        f = {"+": np.add, "-": np.subtract, "*": np.multiply, "/": np.divide}[op]
+        if left:
+            want = f(a, w)
+            expr = (x + g) if op == "+" else (x - g) if op == "-" else (x * g) if op == "*" else (x / g)
+        else:
+            want = f(w, a)
+            expr = (g + x) if op == "+" else (g - x) if op == "-" else (g * x) if op == "*" else (g / x)
+        h = m.converter("h")
+        h.equation = expr
+    except Exception as e:
+        return "rejected", "%s: %s" % (type(e).__name__, str(e)[:80])
+    nv, nr, mism = read_entries(h, want, index_names(k1), 1)
+    if nv == 0:
+        return "rejected", "evaluation raises"
+    if mism:
+        return "VIOL", {"clause": "value/aggregate-as-operand", "mismatch": mism[:3]}
+    if nr:
+        return "VIOL", {"clause": "shape/missing-entries", "values": nv, "raises": nr}
+    return "ok", None
+
+
+def run_refused(op, k1, k2):
+    """an accepted arrayed equation, then an assignment to the same element that is refused (shapes or names do not match): the refusal
+    leaves no trace - the element and the equations built on it still evaluate to the accepted equation's numpy result"""
+    from BPTK_Py import Model
+    m = Model(starttime=0, stoptime=3, dt=1, name="arr")
+    a = np.array(values(k1, PRIMES), dtype=float)
+    b = np.array(values(k1, THIRD), dtype=float)
+    try:
+        x = make_operand(m, "x", k1, PRIMES)
+        x2 = make_operand(m, "x2", k1, THIRD)
+        h = m.converter("h")
+        h.equation = x + x2
+        dep = m.converter("dep")
+        dep.equation = h * 2.0
+    except Exception as e:
+        return "na", None
+    names = index_names(k1)
+    nv, nr, mism = read_entries(h, a + b, names, 1)
+    if nv == 0 or mism or nr:
+        return "na", None        # (the accepted equation itself is the business of the binary cases)
+    m.reset_cache() if hasattr(m, "reset_cache") else None
+    exp = expected_dot(k1, k2) if op == "dot" else expected_elementwise(op, k1, k2)
+    if exp[0] != "reject":
+        return "na", None
+    try:
+        y = make_operand(m, "y", k2, SECOND)
+        if op == "dot":
+            h.equation = x.dot(y)
+        else:
+            h.equation = (x + y) if op == "+" else (x * y)
+        return "na", None        # accepted although the shapes do not match: reported by the binary cases
+    except Exception:
+        pass
+    try:
+        m.memo = {k: {} for k in m.memo} if isinstance(getattr(m, "memo", None), dict) else m.memo
+    except Exception:
+        pass
+    nv, nr, mism = read_entries(h, a + b, names, 2)
+    if mism or nr:
+        return "VIOL", {"clause": "refused-assignment-leaves-a-trace", "mismatch": mism[:3], "raises": nr}
+    nv, nr, mism = read_entries(dep, (a + b) * 2.0, names, 2)
+    if mism or nr:
+        return "VIOL", {"clause": "refused-assignment-leaves-a-trace/dependent", "mismatch": mism[:3], "raises": nr}
+    return "ok", None
+
+
 def _work(part):
     out = []
     for c in part:
         try:
+            if c[0] == "aggop":
+                out.append(run_aggop(c[1], c[2], tuple(c[3]), c[4]))
+                continue
+            if c[0] == "refused":
+                out.append(run_refused(c[1], tuple(c[2]), tuple(c[3])))
+                continue
             if c[0] == "bin":
                 out.append(run_binary(c[1], tuple(c[2]), tuple(c[3]), c[4], c[5] if len(c) > 5 else "second"))
             elif c[0] == "chain":
@@ -452,6 +553,19 @@ def cases(tier):
             for holder in ("converter", "flow", "stock"):
                 for oh in ("constant", "converter"):
                     out.append(["agg", agg, list(k1), holder, oh])
+    # an aggregate as the scalar operand of an element-wise equation over the same array
+    for agg in ("sum", "prod", "mean", "median", "stddev", "rank1", "rank2"):
+        for op in ("+", "-", "*", "/"):
+            for k1 in ks:
+                if is_array(k1):
+                    for left in (True, False):
+                        out.append(["aggop", agg, op, list(k1), left])
+    # an accepted equation, then a refused assignment to the same element
+    for op in ("+", "*", "dot"):
+        for k1 in ks:
+            for k2 in ks:
+                if is_array(k1) and is_array(k2):
+                    out.append(["refused", op, list(k1), list(k2)])
     return out
 
 
@@ -472,6 +586,10 @@ def run(ctx):
                     sig = "C10/%s/(%s %s %s) %s %s/%s/%s" % (detail["clause"], "-".join(map(str, c[3])), c[1], "-".join(map(str, c[3])), c[2], "-".join(map(str, c[4])), c[5], "left" if c[6] else "right")
                 elif c[0] == "bin":
                     sig = "C10/%s/%s/%s x %s/%s%s" % (detail["clause"], c[1], "-".join(map(str, c[2])), "-".join(map(str, c[3])), c[4], "/tiny-values" if len(c) > 5 else "")
+                elif c[0] == "aggop":
+                    sig = "C10/%s/%s/%s/%s/%s" % (detail["clause"], c[1], c[2], "-".join(map(str, c[3])), "array-left" if c[4] else "array-right")
+                elif c[0] == "refused":
+                    sig = "C10/%s/%s/%s then %s" % (detail["clause"], c[1], "-".join(map(str, c[2])), "-".join(map(str, c[3])))
                 else:
                     sig = "C10/%s/%s/%s/%s/%s" % (detail["clause"], c[1], "-".join(map(str, c[2])), c[3], c[4])
                 ctx.violation(sig, {"case": c}, detail)
@@ -479,7 +597,8 @@ def run(ctx):
         "evaluations": len(cs), "distinct_nontrivial": counts["ok"],
         "rule": "all ordered pairs of operand kinds (number, scalar element, vectors 1..n, matrices r x c, named vectors/matrices "
                 "with equal and different names; n = %d) x {+,-,*,/,dot} x result holder {converter, flow, stock}; aggregates x "
-                "operand kinds x holders x operand holder {constant, converter}; chained operations (X op1 Y) op2 Z and Z op2 (X op1 Y) over 4 shapes x 6 third operands; non-trivial = accepted and every entry compared with numpy" % (3 if ctx.tier == "quick" else 4),
+                "operand kinds x holders x operand holder {constant, converter}; chained operations (X op1 Y) op2 Z and Z op2 (X op1 Y) over 4 shapes x 6 third operands; an aggregate of X as scalar operand of X op agg(X) / agg(X) op X; "
+                "an accepted equation followed by a refused assignment to the same element (the refusal leaves no trace); non-trivial = accepted and every entry compared with numpy" % (3 if ctx.tier == "quick" else 4),
         "outcomes": counts, "rejected_kinds": rej,
         "samples": cs[:2] + [cs[len(cs) // 3], cs[2 * len(cs) // 3]],
     }, assumptions=["element-wise operators require equal shapes and equal index names (no numpy broadcasting between arrays)",
